@@ -225,6 +225,16 @@ static void check_render(vnode *t, const char *origin)
         }
         free(out);
         vw_count("print_outputs_compared", 1);
+        /* whenever to_string reports success the stored text must be the full rendering - also when the buffer is tight */
+        for (size_t tight = ref.n; tight <= ref.n + 1; tight++) {
+            char *tb = (char *)malloc(tight + 1); memset(tb, 0x7E, tight + 1);
+            size_t tsz = tight;
+            if (binson_parser_to_string(c.p, tb, &tsz, true) && (tsz != ref.n || strnlen(tb, tight) != ref.n || memcmp(tb, refs, ref.n) != 0)) {
+                snprintf(what, sizeof what, "to_string returned true with capacity %zu (text length %zu) but stored a text of %zu characters", tight, ref.n, strnlen(tb, tight));
+                viol("c14:success-with-truncated-text", what, &d, root, depth);
+            }
+            free(tb);
+        }
     }
     vw_count("texts_compared", 1);
     vw_max("max_text_bytes", ref.n);
